@@ -544,14 +544,98 @@ def r_callback_dict(rng):
     return {"direct": cid, "obj": cd}, check
 
 
+class RenameTarget(object):
+    """Final target of the harness' own rename chains (see C12.rename_resolver_case)."""
+
+
+def r_nested_containers(rng):
+    cid, cid2 = ComponentID("shared"), ComponentID("shared2")
+    inner = {"l": [1, {"t": (cid, 2), "deep": [[cid2], []]}, []], "e": {}, "np": [np.int64(3), np.float32(0.5)]}
+
+    def check(L):
+        p = []
+        o = L["obj"]
+        try:
+            P(p, o["l"][0] == 1 and o["l"][2] == [] and o["e"] == {} and same_seq(o["np"], [3, 0.5]), "value", "literals")
+            P(p, o["l"][1]["deep"][0][0] is L["direct2"], "sharing", "item of a list nested in a dict nested in a list")
+            P(p, o["l"][1]["deep"][1] == [], "value", "empty nested list")
+            P(p, isinstance(o["l"][1]["t"][0], ComponentID) and o["l"][1]["t"][1] == 2, "value", "nested tuple")
+        except Exception as exc:
+            P(p, False, "value", "structure: %s" % type(exc).__name__)
+        return p
+    return {"direct": cid, "direct2": cid2, "obj": inner}, check
+
+
+def r_dict_shared_key(rng):
+    cid = ComponentID("shared")
+    inner = {cid: "value", "other": [cid]}
+
+    def check(L):
+        p = []
+        o = L["obj"]
+        if cls_is(p, o, dict):
+            keys = [k for k in o if isinstance(k, ComponentID)]
+            P(p, len(keys) == 1 and o[keys[0]] == "value", "value", "ComponentID key")
+            P(p, len(keys) == 1 and keys[0] is L["direct"], "sharing", "dict key is not the object referenced directly")
+            P(p, o["other"][0] is L["direct"], "sharing", "list item is not the object referenced directly")
+        return p
+    return {"direct": cid, "obj": inner}, check
+
+
+def r_meta_sharing(rng):
+    d = _small_data(rng)
+    d.meta["ref"] = d.id["x"]
+    d.meta["refs"] = [d.id["x"], d.id["i"]]
+    d.meta["np"] = np.float32(2.5)
+
+    def check(L):
+        p = []
+        o = L["obj"]
+        if cls_is(p, o, Data):
+            own = [c for c in o.components if c.label == "x"]
+            P(p, len(own) == 1 and o.meta.get("ref") is own[0], "sharing", "meta value is not the dataset's own component id")
+            P(p, isinstance(o.meta.get("refs"), list) and len(o.meta["refs"]) == 2 and o.meta["refs"][0] is own[0], "sharing",
+              "item of a list in meta is not the dataset's own component id")
+            P(p, o.meta.get("np") == 2.5, "value", "numpy scalar in meta")
+        return p
+    return {"direct": d.id["x"], "obj": d}, check
+
+
+r_meta_sharing.min_version = 5       # metadata is written from Data version 5 on
+
+
+def r_link_helper_sharing(rng):
+    from glue.core.link_helpers import LinkSame
+    d0, d1 = _small_data(rng, "d0"), _small_data(rng, "d1")
+    dc = DataCollection([d0, d1])
+    dc.add_link(LinkSame(d0.id["x"], d1.id["x"]))
+
+    def check(L):
+        p = []
+        o = L["obj"]
+        if cls_is(p, o, DataCollection) and len(o) == 2 and len(o.external_links) >= 1:
+            from glue.core.link_helpers import LinkCollection
+            link = o.external_links[0]          # a LinkSame (v4) or its flat component link (v1-v3)
+            cl = list(link)[0] if isinstance(link, LinkCollection) else link
+            ids = list(cl.get_from_ids()) + [cl.get_to_id()]
+            own = [c for d in o for c in d.components]
+            P(p, all(any(i is c for c in own) for i in ids), "sharing", "link ends are not the datasets' own component ids")
+            P(p, any(i is L["direct"] for i in ids), "sharing", "link end is not the id referenced directly")
+        else:
+            P(p, False, "value", "collection / link count")
+        return p
+    return {"direct": d0.id["x"], "obj": dc}, check
+
+
 # registered type name -> recipes exercising its saver (several recipes may share a registered type)
 RECIPES = {
-    "dict": [r_dict, r_callback_dict], "tuple": [r_tuple, r_tuple_literals], "list": [r_list], "set": [r_set],
+    "dict": [r_dict, r_callback_dict, r_nested_containers, r_dict_shared_key], "tuple": [r_tuple, r_tuple_literals],
+    "list": [r_list], "set": [r_set],
     "slice": [r_slice], "UnitBase": [r_unit], "WCS": [r_wcs],
     "CompositeSubsetState": [r_composite, r_invert], "SubsetState": [r_base_state], "RangeSubsetState": [r_range],
     "RoiSubsetState": [r_roi_state], "RoiSubsetStateNd": [r_roi_state_nd_atts],
     "InequalitySubsetState": [r_inequality, r_inequality2], "Roi": [r_roi_base], "VisualAttributes": [r_style],
-    "Subset": [r_subset], "DataCollection": [r_data_collection], "Data": [r_data], "ComponentID": [r_component_id],
+    "Subset": [r_subset], "DataCollection": [r_data_collection, r_link_helper_sharing], "Data": [r_data, r_meta_sharing], "ComponentID": [r_component_id],
     "PixelComponentID": [r_pixel_component_id], "Component": [r_component], "CategoricalComponent": [r_categorical_component],
     "DerivedComponent": [r_derived_component], "ComponentLink": [r_component_link],
     "CoordinateComponentLink": [r_coordinate_component_link], "builtin_function_or_method": [r_builtin],
